@@ -46,6 +46,11 @@ FAULTS = {
     "delay:non-numeric": ("raw", "delay", ["abc", "g"]),
     "delay:unknown-channel": ("delay", 100, "zz"),
     "delay:over-long-sequence": ("delay", 360, "g", True),
+    # refused delays AT REST: the call first waits for the pending fall time and only then validates the duration
+    "delay:at-rest-below-min": ("delay", 8, "g", True),
+    "delay:at-rest-below-min-local": ("delay", 8, "l", True),
+    "delay:at-rest-negative": ("delay", -4, "g", True),
+    "delay:at-rest-above-max": ("delay", 2000, "l", True),
     "add:amp-over-limit": ("add", BIG, "g"),
     "add:det-over-limit": ("add", DET, "l"),
     "add:below-min-duration": ("add", SHORT, "g"),
